@@ -1,4 +1,8 @@
+#ifndef NO_CANARY
 #define CANARY(n) __CPROVER_assert(0, "canary: " n " reaches the end (must FAIL)")
+#else
+#define CANARY(n)
+#endif
 #define TOK ((void*)(uintptr_t)8)
 #define MAYBE (nondet_bool() ? TOK : (void*)0)
 #define SP_PTR(sp) ((sp)->f0.f0)
